@@ -572,16 +572,70 @@ class SimComm(Intracomm):
         self._wait_all("allgather", k, ent)
         return [pickle.loads(ent["vals"][i]) for i in range(self._sim.n)]
 
+    @staticmethod
+    def _reduce_vals(vals, op):
+        """Reduction in rank order (mpi4py applies python-object reductions that way)."""
+        name = getattr(op, "name", None) if op is not None else "SUM"
+        res = vals[0]
+        for v in vals[1:]:
+            if name == "SUM":
+                res = res + v
+            elif name == "MAX":
+                res = max(res, v)
+            elif name == "MIN":
+                res = min(res, v)
+            elif name == "PROD":
+                res = res * v
+            elif name == "LAND":
+                res = bool(res) and bool(v)
+            elif name == "LOR":
+                res = bool(res) or bool(v)
+            elif callable(op):
+                res = op(res, v)
+            else:
+                raise ProtocolError(f"reduction op {op!r} is not modelled")
+        return res
+
     def allreduce(self, obj, op=None):
-        if op is not None:
-            raise ProtocolError("allreduce with explicit op is not modelled")
         k, ent = self._enter("allreduce", None, _pkl(obj))
         self._wait_all("allreduce", k, ent)
         vals = [pickle.loads(ent["vals"][i]) for i in range(self._sim.n)]
-        res = vals[0]
-        for v in vals[1:]:
-            res = res + v
-        return res
+        return self._reduce_vals(vals, op)
+
+    def reduce(self, obj, op=None, root=0):
+        root = self._check_root(root)
+        k, ent = self._enter("reduce", root, _pkl(obj))
+        # the root needs everybody's contribution; the others may leave once they have contributed
+        if self._rank == root:
+            self._wait_all("reduce", k, ent)
+            return self._reduce_vals([pickle.loads(ent["vals"][i]) for i in range(self._sim.n)], op)
+        return None
+
+    def gather(self, obj, root=0):
+        root = self._check_root(root)
+        k, ent = self._enter("gather", root, _pkl(obj))
+        if self._rank == root:
+            self._wait_all("gather", k, ent)
+            return [pickle.loads(ent["vals"][i]) for i in range(self._sim.n)]
+        return None
+
+    def scatter(self, objs, root=0):
+        root = self._check_root(root)
+        me = self._rank
+        if me == root and (objs is None or len(objs) != self._sim.n):
+            raise ProtocolError("scatter needs one object per task on the root")
+        ent, root = self._rooted("scatter", root, _pkl(list(objs)) if me == root else None, None)
+        return pickle.loads(ent["vals"][root])[me]
+
+    def Allreduce(self, sendbuf, recvbuf, op=None):
+        a = np.asarray(sendbuf)
+        k, ent = self._enter("Allreduce", None, _raw_bytes(a), (str(a.dtype), a.size))
+        self._wait_all("Allreduce", k, ent)
+        if len({ent["meta"][i] for i in range(self._sim.n)}) != 1:
+            raise ProtocolError("Allreduce buffers differ between tasks")
+        vals = [np.frombuffer(ent["vals"][i], dtype=a.dtype) for i in range(self._sim.n)]
+        flat = _raw_view(recvbuf, writable=True)
+        flat[...] = self._reduce_vals(vals, op)
 
     def _rooted(self, kind, root, payload, meta):
         S, me = self._sim, self._rank
@@ -652,6 +706,9 @@ def install_mpi_stub():
         m._verifsim_stub = True
         m.Intracomm = Intracomm
         m.Comm = Intracomm
+        for _nm in ("SUM", "MAX", "MIN", "PROD", "LAND", "LOR"):
+            setattr(m, _nm, types.SimpleNamespace(name=_nm))
+        m.ANY_SOURCE = -1
         sys.modules["mpi4py.MPI"] = m
         mpi4py.MPI = m
     return m
